@@ -70,7 +70,7 @@ pub struct Viol {
     pub confirmed: bool,
 }
 
-pub const DISTINCT_CAP: usize = 3_000_000;
+pub const DISTINCT_CAP: usize = 250_000;
 
 pub struct Report {
     pub evaluations: u64,
